@@ -132,13 +132,14 @@ func (o ImplOutcome) Canon() string {
 func (c ProgCase) buildSet() (*pongo2.TemplateSet, []*memLoader) {
 	var loaders []*memLoader
 	var tls []pongo2.TemplateLoader
+	sink := &sharedLog{}
 	for i, l := range c.Loaders {
-		ml := &memLoader{files: l, id: fmt.Sprint(i)}
+		ml := &memLoader{files: l, id: fmt.Sprint(i), sink: sink}
 		loaders = append(loaders, ml)
 		tls = append(tls, ml)
 	}
 	if len(tls) == 0 {
-		ml := &memLoader{files: map[string]string{}, id: "0"}
+		ml := &memLoader{files: map[string]string{}, id: "0", sink: sink}
 		loaders = append(loaders, ml)
 		tls = append(tls, ml)
 	}
@@ -171,8 +172,8 @@ func (c ProgCase) RunImpl() (o ImplOutcome) {
 		if p := recover(); p != nil {
 			o = ImplOutcome{Class: "panic", Msg: fmt.Sprint(p)}
 		}
-		for _, l := range loaders {
-			o.GetLog = append(o.GetLog, l.log...)
+		if len(loaders) > 0 && loaders[0].sink != nil {
+			o.GetLog = append(o.GetLog, loaders[0].sink.log...)
 		}
 	}()
 	set, ls := c.buildSet()
@@ -214,6 +215,30 @@ func modelCanon(ans string) string {
 		return "panic"
 	}
 	return f[0]
+}
+
+// progCompareLog makes runProgCases also compare the loaders' Get log with the model's.
+var progCompareLog bool
+
+// modelLog extracts the model's fetch log as "loader:name,…" with decoded names.
+func modelLog(ans string) (string, bool) {
+	i := strings.Index(ans, "log=")
+	if i < 0 {
+		return "", false
+	}
+	raw := strings.TrimSpace(ans[i+4:])
+	if raw == "" {
+		return "", true
+	}
+	var out []string
+	for _, e := range strings.Split(raw, ",") {
+		k := strings.IndexByte(e, ':')
+		if k < 0 {
+			return "", false
+		}
+		out = append(out, e[:k]+":"+unhx(e[k+1:]))
+	}
+	return strings.Join(out, ","), true
 }
 
 // parMap runs f over 0..n-1 on all cores.
@@ -289,6 +314,14 @@ func runProgCases(cfg Config, res *Result, cases []ProgCase, sigPrefix string, n
 		}
 		ic := io.Canon()
 		if ic == m {
+			if progCompareLog && io.Class == "ok" { // on errors the model does not keep the log of the failed compilation
+				if ml, ok := modelLog(model[i]); ok {
+					il := strings.Join(io.GetLog, ",")
+					if ml != il {
+						res.add(Finding{Kind: "disagree", Proj: "fetchlog", Sig: sigPrefix + "-fetchlog", Case: c.String(), Impl: il, Model: ml})
+					}
+				}
+			}
 			continue
 		}
 		proj := "output"
